@@ -114,6 +114,57 @@ func c06Eval(c c06Case) (ok bool, sig, detail string) {
 				}
 			}
 		}
+		// non-initial values: what the library's own operations make of this value (Expand and Shift at every
+		// index by -2..2, Reverse, Normalize) is a location value too and must survive print -> parse -> print
+		if lc := leafCount(loc); ok0 && lc <= 2 {
+			L := 0
+			for _, a := range d0 {
+				if a.Pos+1 > L {
+					L = a.Pos + 1
+				}
+			}
+			type der struct {
+				name string
+				f    func() gts.Location
+			}
+			var ders []der
+			for i := 0; i <= L; i++ {
+				for _, n := range []int{-2, -1, 1} {
+					i, n := i, n
+					ders = append(ders, der{fmt.Sprintf("Expand(%d,%d)", i, n), func() gts.Location { return loc.Expand(i, n) }})
+					if n > 0 {
+						ders = append(ders, der{fmt.Sprintf("Shift(%d,%d)", i, n), func() gts.Location { return loc.Shift(i, n) }})
+					}
+				}
+			}
+			ders = append(ders, der{fmt.Sprintf("Reverse(%d)", L), func() gts.Location { return loc.Reverse(L) }},
+				der{fmt.Sprintf("Normalize(%d)", L), func() gts.Location { return loc.Normalize(L) }})
+			for _, d := range ders {
+				var r gts.Location
+				var rs, rs2 string
+				var rerr error
+				if p, _ := engine.Safely(func() {
+					r = d.f()
+					if _, wf := refmodel.Den(r); !wf {
+						r = nil
+						return
+					}
+					rs = r.String()
+					var b gts.Location
+					if b, rerr = gts.AsLocation(rs); rerr == nil {
+						rs2 = b.String()
+					}
+				}); p || r == nil {
+					continue // what the operation itself must deliver is C02/C03/C05's business
+				}
+				if rerr != nil {
+					return false, "derived-printed-form-rejected", fmt.Sprintf("%s.%s prints as %q which the parser rejects: %v", c.Loc, d.name, rs, rerr)
+				}
+				if rs2 != rs {
+					return false, "derived-print-parse-print", fmt.Sprintf("%s.%s prints as %q, re-parsed value prints as %q", c.Loc, d.name, rs, rs2)
+				}
+			}
+		}
 		return true, "", ""
 	case "string":
 		var loc gts.Location
